@@ -240,12 +240,16 @@ where
     }
 
     fn n_bins(&self) -> usize {
-        let mut max_edge = self.min.clone();
+        // Count with the same expression `build` uses to place the edges, so
+        // that the last edge built is strictly greater than `max`.
         let mut n_bins = 0;
-        while max_edge <= self.max {
+        loop {
             #[cfg(feature = "verif_hooks")]
             crate::verif_hooks::burn();
-            max_edge = max_edge + self.bin_width.clone();
+            let edge = self.min.clone() + T::from_usize(n_bins).unwrap() * self.bin_width.clone();
+            if edge > self.max {
+                break;
+            }
             n_bins += 1;
         }
         n_bins
